@@ -677,3 +677,52 @@ def crafted(case, ctx):
 # change a record's size, padding or framing, under ASan with the TLS_CONNECT invariants.
 from props.c06x import peerfuzz as _pf
 _pf.register(P, quick=1500, thorough=40000, name="peerrecords", strategy=_pf.records_s)
+
+
+# ---------------------------------------------------------------------------
+# "returns the original content type and payload" on a live connection when the payload is taken in pieces and the reader writes in
+# between (the echo pattern of the library's own server tools): read part of a record, send something, read the rest
+part_case = st.fixed_dictionaries({"proto": st.sampled_from(net.PROTOS), "dir": st.sampled_from(["c2s", "s2c"]), "seed": st.integers(0, 1 << 20),
+                                   "n": st.sampled_from([2, 20, 300, 1000, 5000, 16384]), "take": st.integers(1, 4000), "reply": st.sampled_from([1, 16, 200, 3000, 16384])})
+
+
+@P.sub("partial", part_case, quick=240, thorough=6000, chunk=12)
+def partial(case, ctx):
+    """live connection: part of a record read, a write by the reader, then the rest of the record: the bytes read are the bytes sent"""
+    proto, d, n = case["proto"], case["dir"], case["n"]
+    shim().freeze_time(pki.T0)
+    s = net.Session(ctx.variant, proto, _pki(proto), seed=case["seed"], quiet_ms=None)
+    try:
+        rc, rs = s.start()
+        hc, hs = s.handshake(timeout=30.0)
+        if hc[0] == "timeout" or hs[0] == "timeout":
+            ctx.note("inconclusive-timeout"); return
+        ctx.check(hc[1] == 1 and hs[1] == 1, "handshake failed %s %s" % (hc, hs), "live/handshake")
+        snd, rcv = (s.client, s.server) if d == "c2s" else (s.server, s.client)
+        msg = _bytes("partial%d" % case["seed"], n)
+        take = min(case["take"], n - 1)
+        r = snd.do("send", msg)
+        ctx.check(r[1] == 1 and r[2] == n, "send failed %r" % (r,), "live/send")
+        r1 = rcv.do("recv", take, timeout=20.0)
+        if r1[0] == "timeout":
+            ctx.note("inconclusive-timeout"); return
+        ctx.check(r1[1] == 1 and msg.startswith(r1[2]) and len(r1[2]) >= 1, "%s: first read of %d bytes returned %r" % (proto, take, r1[:2]), "partial/first-read")
+        got = r1[2]
+        rw = rcv.do("send", _bytes("partial-reply%d" % case["seed"], case["reply"]), timeout=20.0)
+        ctx.case(nontrivial=True, classes=[proto, d, "write-between:" + ("done" if rw[1] == 1 else "refused")], ident=case, sample=case)
+        for _ in range(64):
+            if len(got) >= n:
+                break
+            r2 = rcv.do("recv", 20000, timeout=20.0)
+            if r2[0] == "timeout":
+                ctx.note("inconclusive-timeout"); return
+            if r2[1] != 1:
+                break
+            got += r2[2]
+        # a reader whose write is refused while data is pending may stop there; whatever it is handed must be what was sent
+        ctx.check(msg.startswith(got), "%s %s: after reading %d of %d bytes and writing %d bytes, the reader was handed bytes the peer never sent (first difference at %d)" %
+                  (proto, d, len(r1[2]), n, case["reply"], next((i for i in range(min(len(got), n)) if got[i] != msg[i]), min(len(got), n))), "partial/%s/altered" % proto)
+        if rw[1] == 1:
+            ctx.check(got == msg, "%s %s: only %d of %d bytes arrived after a write between two reads" % (proto, d, len(got), n), "partial/%s/lost" % proto)
+    finally:
+        s.finish()
